@@ -403,6 +403,12 @@ def rule_each(env, shared):
         else:
             bi, t, c, hb, hctx, argmap = creations[0]
             cs = _map_params(unref(ev.operand(hctx, t["args"][1])), argmap)
+            if cs != ("param", 2):
+                # the chunk size may travel through a small value of the crate (`match PullBy::new(n) { ChunksOf(n) => .. }`):
+                # judged with the crate's own functions inlined
+                cs_in = _map_params(unref(env.ev.operand(env.ctx(hb, None, None), t["args"][1])), argmap)
+                if cs_in == ("param", 2):
+                    cs = cs_in
             inloop = any(bi in s_ for (h_, s_) in hb.natural_loops()) or any(
                 sbb is not None and any(sbb in s_ for (h_, s_) in sb.natural_loops()) for (_b, _c, _m, (sb, sbb)) in parts
                 if _b is hb and sb is not None)
